@@ -327,6 +327,7 @@ def impl_model_stage(prefixes, expect_fail=(), orig_mutants=(), nonotify_mutants
             stats = list(ex.map(lambda t: vlib.run_harness(["replay", "--scn", scn_file, "--sched", t[0], "--out", t[1],
                                                             "--sched-out", t[2]]), files))
         drift_scn = set()
+        drift_prefixes = []
         for st in stats:
             if "crash" in st:
                 v.crash(st, wd)
@@ -334,6 +335,7 @@ def impl_model_stage(prefixes, expect_fail=(), orig_mutants=(), nonotify_mutants
             e = st.get("extra", {})
             cov["lockstep_matched"] += e.get("lockstep_matched", 0)
             cov["lockstep_drift"] += e.get("lockstep_drift", 0)
+            drift_prefixes += e.get("drifts") or []
             if e.get("first_drift"):
                 drift_scn.add(e["first_drift"]["scn"])
                 v.notes.append("model-drift: the code no longer follows MQImpl in scenario %s at op %s: expected %s got %s"
@@ -353,8 +355,40 @@ def impl_model_stage(prefixes, expect_fail=(), orig_mutants=(), nonotify_mutants
         cov["traces_validated_against_impl"] += val["accepted"]
         cov["evaluations"] += ms["runs"]
         cov["distinct_nontrivial"] += ms["nontrivial"]
+        if drift_prefixes:
+            # drift-directed exploration, first part: every interleaving with <= 2 preemptions BELOW the schedule
+            # prefixes that reach a divergence (the system is then exactly where the code does something else)
+            seen_p, uniq_p = set(), []
+            for d in drift_prefixes:
+                k = (d["scn"], tuple(d["prefix"]))
+                if k not in seen_p:
+                    seen_p.add(k)
+                    uniq_p.append(d)
+            uniq_p = uniq_p[:48]
+            pf = os.path.join(wd, "drift_prefixes.ndjson")
+            with open(pf, "w") as fh:
+                for d in uniq_p:
+                    fh.write(json.dumps(d) + "\n")
+            extra_scn = [s_ for s_ in scns if s_["name"] in {d["scn"] for d in uniq_p}]
+            xf = os.path.join(wd, "driftp.scn.ndjson")
+            vlib.write_scenarios(xf, extra_scn)
+            tr, sc_, st2 = vlib.explore(xf, wd, "driftp", "dfs", runs=(3000 if tier == "quick" else 20000), bound=2,
+                                        extra=["--prefix-file", pf])
+            log("  [drift] below %d diverging prefixes: %d runs, %d distinct traces, outcomes %s" %
+                (len(uniq_p), st2["runs"], st2["distinct_traces"], st2["outcomes"]))
+            for c_ in st2["crashes"]:
+                v.crash(c_, wd)
+            val2 = vlib.validate_many(tr, wd)
+            log("  [tlc] trace validation: %d accepted, %d rejected" % (val2["accepted"], len(val2["rejected"])))
+            sb2 = vlib.load_scheds(sc_)
+            for rej in val2["rejected"]:
+                v.judge_rejected(rej, wd, sb2, {s_["name"]: s_ for s_ in extra_scn}, source="dfs-below-drift")
+            cov["states"] += val2["states"]
+            cov["traces_validated_against_impl"] += val2["accepted"]
+            cov["evaluations"] += st2["runs"]
+            cov["drift_directed_runs"] = cov.get("drift_directed_runs", 0) + st2["runs"]
         if drift_scn:
-            # drift-directed exploration: the code does something else there, search that scenario harder
+            # second part: the code does something else there, search that scenario harder from the start
             extra = [s for s in scns if s["name"] in drift_scn]
             log("  [drift] exploring %d drifting scenario(s) natively" % len(extra))
             concurrent_stage("drift", wd, extra, v, cov,
